@@ -476,6 +476,16 @@ func c16BuiltinPrograms() []c16Item {
 			}
 		}
 	}
+	// a block whose only statement is an expression statement that emits no line
+	for _, e := range []string{"itoa(vi)", "vi", "5", "\"s\"", "true", "(vi)", "vs", "(itoa(vi))"} {
+		for _, c := range cn {
+			w := ctxs[c]
+			if c == "top" {
+				continue
+			}
+			out = append(out, c16Item{name: "builtin sole-statement-without-effect expr=" + e + " ctx=" + c, src: prelude + w[0] + e + "\n" + w[1]})
+		}
+	}
 	// empty blocks of every kind, many functions, deep nesting
 	out = append(out, c16Item{name: "empty blocks of every kind", src: "vi := 1\nif vi == 1 {\n}\nif vi == 2 {\n} else {\n}\nif vi == 1 {\n} else if vi == 2 {\n} else {\n}\nfor vi < 0 {\n}\nfor q := 0; q < 2; q++ {\n}\nswitch vi {\n}\nswitch vi {\ncase 1:\ndefault:\n}\nfunc e1() {\n}\ne1()\nfor i, c := range \"ab\" {\n}\n"})
 	var many strings.Builder
@@ -630,7 +640,14 @@ func C16() int {
 		out, err := exec.Command("/bin/bash", "-n", sp).CombinedOutput()
 		os.Remove(sp)
 		if err != nil {
-			fail("bash-syntax-check", firstLine(string(out)), rb.Script)
+			// key by the token bash trips over, not by the program (one cause, one key)
+			tok := "other"
+			if m := regexp.MustCompile("unexpected token `([^']*)'").FindStringSubmatch(string(out)); m != nil {
+				tok = m[1]
+			} else if strings.Contains(string(out), "unexpected end of file") || strings.Contains(string(out), "unexpected EOF") {
+				tok = "EOF"
+			}
+			fail("bash-syntax-check unexpected="+tok, firstLine(string(out)), rb.Script)
 		}
 		// Batch: structure
 		bs := parseBat(rw.Script)
